@@ -193,14 +193,27 @@ def variants(ctx, fam):
                 ctx.obs["flaky_lookup_configs"] += int(flaky_at is not None and flaky_get)
             c2 = {**case, "fail": sorted(fail) if fail else None, "mode": mode}
             runs = 2 if cache is not None else 1
+            # a third of the programs are observed by TWO further processors that compare equal to each other
+            # (distinct objects): each of them is owed the whole stream and one shutdown
+            twins = rng.random() < 0.34
             for rep in range(runs):
-                o = core.execute(core.with_async(spec, False), inputs, "sync", processors=[Rec("p")], cache=cache, **k2)
+                procs = [Rec("p")] + ([Rec("q1", eq_group="twins"), Rec("q2", eq_group="twins")] if twins else [])
+                o = core.execute(core.with_async(spec, False), inputs, "sync", processors=procs, cache=cache, **k2)
                 st = check_stream(ctx, o, spec, "p", f"sync{'-rerun' if rep else ''}", c2)
+                if twins:
+                    for tg in ("q1", "q2"):
+                        check_stream(ctx, o, spec, tg, f"sync{'-rerun' if rep else ''}/equal-processor-{tg}", c2)
+                        ctx.obs["equal_processor_streams"] += 1
                 nstreams += 1
             aspec = core.with_async(spec, True, rng, 0.7)
             for label, sched, mc in (("async-natural", None, None), ("async-sched", rt.Sched(default="rand", rng=rng), None), ("async-k", rt.Sched(default="last"), rng.choice([1, 2]))):
-                o = core.execute(aspec, inputs, "async", sched=sched, max_concurrency=mc, processors=[ARec("p", rng, 3)], cache=cache, **k2)
+                procs = [ARec("p", rng, 3)] + ([ARec("q1", rng, 1, eq_group="twins"), ARec("q2", rng, 1, eq_group="twins")] if twins else [])
+                o = core.execute(aspec, inputs, "async", sched=sched, max_concurrency=mc, processors=procs, cache=cache, **k2)
                 check_stream(ctx, o, spec, "p", label, c2)
+                if twins:
+                    for tg in ("q1", "q2"):
+                        check_stream(ctx, o, spec, tg, f"{label}/equal-processor-{tg}", c2)
+                        ctx.obs["equal_processor_streams"] += 1
                 nstreams += 1
     # a selected output that is not produced, with on_missing='error' (failure after execution)
     from hgmon import ref
